@@ -3,8 +3,8 @@
 From ZV Require Import Base.Bytes Base.Res Base.Sig DBus.Val DBus.Spec DBus.Ser C09.Model C09.Spec.
 From Coq Require Import Lia.
 
-Definition variant := (vkind * list (bytes * tshape))%type.
-Definition dfield := (bytes * (bool * tshape))%type.
+Notation variant := (vkind * list (bytes * tshape))%type (only parsing).
+Notation dfield := (bytes * (bool * tshape))%type (only parsing).
 
 Section TshapeInd.
   Variable P : tshape -> Prop.
